@@ -93,6 +93,8 @@ struct Client<'a> {
     shadow: Vec<u8>,
     map: Vec<usize>,
     nontrivial: bool,
+    /// the last `write` returned Ok(0) for a non-empty buffer because the inner writer did
+    last_was_refusal: bool,
 }
 
 impl Client<'_> {
@@ -201,6 +203,7 @@ impl Client<'_> {
             let st = self.h.st();
             (st.raised.clone(), st.zeroes, st.accepted.len(), st.flushes)
         };
+        self.last_was_refusal = r == OpResult::Count(0) && !buf.is_empty() && zeroes > 0;
         let what = format!("{}({} bytes at input offset {}) -> {}", op.name(), buf.len(), c_before, r.show());
         self.note(format!(
             "{what}   [inner: accepted {}->{} bytes, raised {:?}, zero-results {}]",
@@ -259,9 +262,9 @@ impl Client<'_> {
                 if let Some(k) = hard_raised.first() {
                     return Err(viol("error-swallowed", format!("{what}: the inner writer raised {k:?} but the call reported success")).unwrap());
                 }
-                if zeroes > 0 {
-                    return Err(viol("error-swallowed", format!("{what}: the inner writer returned Ok(0) for a non-empty buffer but write_all semantics reported success")).unwrap());
-                }
+                // (an inner Ok(0) is not an error; a stream may retry it.  Whether everything
+                // arrived is judged by the invariants below, a stream that spins on a writer
+                // that refuses data for good by the step budget)
                 self.c += buf.len();
                 if let Some(v) = self.check_invariants(true, &what) {
                     return Err(v);
@@ -365,6 +368,7 @@ impl Client<'_> {
         // scripted faults have fired, every call must make progress.
         let pending = self.h.st().pending_fires();
         let mut budget = 2 * (n - self.c.min(n)) as u64 + 64 + 2 * pending;
+        let mut refusals = 0u32;
         while self.c < n {
             if budget == 0 {
                 return viol(
@@ -381,6 +385,17 @@ impl Client<'_> {
                     return None;
                 }
                 Ok(false) => {}
+            }
+            // a writer that keeps answering Ok(0) refuses data for good: a real client gives up
+            // (write_all turns it into WriteZero); that is not a lack of progress of the stream
+            if self.last_was_refusal {
+                refusals += 1;
+                if refusals >= 4 {
+                    self.st.probe("history_stopped_by_persistent_refusal");
+                    return None;
+                }
+            } else {
+                refusals = 0;
             }
         }
         self.st.probe("history_delivered_everything");
@@ -417,6 +432,7 @@ pub fn execute(t: &Trace, stats: &mut Stats, record: bool) -> Outcome {
         shadow: shadow_states(&t.input),
         map,
         nontrivial: false,
+        last_was_refusal: false,
     };
     client.hash.str(&t.surface);
     if t.faults.is_empty() {
